@@ -232,6 +232,10 @@ def build_searcher(case, paths, sds=None):
             if simple is not None and j == pos:
                 fs.add(simple, p)
             fs.add(sds[k], p)
+            if case.get('dup'):
+                # overlapping path specifications: the same definition
+                # object registered once more against the same file
+                fs.add(sds[k], p[:-1] + '[' + p[-1] + ']')
         if simple is not None and pos >= len(order):
             fs.add(simple, p)
     return fs, sds
@@ -312,7 +316,19 @@ def run_mp_job(job, workdir):
         p = os.path.join(workdir, f"mp{i}.txt")
         write_file(p, job, texts)
         paths.append(p)
-    fs, sds = build_searcher(job, paths)
+    sds = None
+    if job.get('prior_single'):
+        # history: the same definition objects were first used by a search
+        # that ran in-process (one file) and found sections
+        prior = os.path.join(workdir, 'prior.txt')
+        ll = [LETTERS[d['letters']] for d in job['defs']]
+        nd = len(ll)
+        write_file(prior, {}, [line_text([1] * nd, ll, (1, 2, 3)),
+                               line_text([2] * nd, ll, (4, 5, 6)),
+                               line_text([1] * nd, ll, (7, 8, 9))])
+        fs0, sds = build_searcher(job, [prior])
+        fs0.run()
+    fs, sds = build_searcher(job, paths, sds)
     results = fs.run()
     out = {'files': [], 'problems': []}
     ids = []
@@ -369,17 +385,38 @@ def run_mp(job, workdir, timeout=60):
 
 
 # ------------------------------------------------------------- generators
-def mk_case(defs, codes_rows, rng=None, **kw):
-    """ codes_rows[i][k] = class of line i+1 for definition k """
+def mk_case(defs, codes_rows, rng=None, cr_rows=None, **kw):
+    """ codes_rows[i][k] = class of line i+1 for definition k;
+    cr_rows[i] = (kind, codes): line i gets a carriage return - kind 0/1:
+    "<line>\\r<second text>" (kind 1: the first part is filler), kind 2: the
+    line ends with '\\r' (a '\\r\\n' terminator) """
     letters_list = [LETTERS[d['letters']] for d in defs]
     texts = []
+    codes_rows = list(codes_rows)
+    # the insertion of blank rows (by the caller) happens after cr_rows was
+    # drawn: re-locate the marked rows among the non-blank ones
+    nonblank = [i for i, r in enumerate(codes_rows) if r is not None]
+    cr = {}
+    for j, v in (cr_rows or {}).items():
+        if int(j) < len(nonblank):
+            cr[nonblank[int(j)]] = v
     for i, row in enumerate(codes_rows):
         if rng is None:
             abc = (3 * (i + 1), 3 * (i + 1) + 1, 3 * (i + 1) + 2)
         else:
             abc = (rng.randrange(1000), rng.randrange(1000),
                    rng.randrange(1000))
-        texts.append(line_text(row, letters_list, abc))
+        t = line_text(row, letters_list, abc)
+        if i in cr:
+            kind, tail = cr[i]
+            if kind == 2:
+                t = t + '\r'
+            else:
+                first = 'x 7 7 7' if kind == 1 else t
+                t = first + '\r' + line_text(tail, letters_list,
+                                             (abc[2], abc[0], abc[1]))
+            codes_rows[i] = None       # no class was "meant" for this line
+        texts.append(t)
     case = {'defs': defs, 'texts': texts,
             'codes': [None if r is None else list(r) for r in codes_rows]}
     case.update(kw)
@@ -427,11 +464,23 @@ def random_case(rng, maxlen=40):
         biases.append(w)
     rows = [[rng.choices(range(8), weights=biases[k])[0] for k in range(nd)]
             for _ in range(n)]
+    cr_rows = {}
+    if rng.random() < 0.25:
+        # a bare carriage return inside a physical line (progress bars,
+        # console tools): still ONE line; what follows the '\r' may look
+        # like a start / end / body line.  Also '\r\n' terminators.
+        for _ in range(rng.randrange(1, 4)):
+            i = rng.randrange(0, len(rows))
+            kind = rng.randrange(3)
+            tail = [rng.choices(range(8), weights=WEIGHTS)[0]
+                    for _ in range(nd)]
+            cr_rows[i] = (kind, tail)
     if rng.random() < 0.3:
         # blank lines: an end pattern may match them, or '' only, or both
         for _ in range(rng.randrange(1, 4)):
             rows.insert(rng.randrange(0, len(rows) + 1), None)
-    return mk_case(defs, rows, rng, kind='random',
+    return mk_case(defs, rows, rng, kind='random', cr_rows=cr_rows,
+                   dup=rng.random() < 0.15,
                    after_failure=rng.random() < 0.06,
                    simple=rng.random() < 0.5,
                    simple_pos=rng.randrange(0, nd + 1),
@@ -452,6 +501,16 @@ def corpus_cases():
                       kind='corpus')
         yield mk_case(defs, [[c] * len(defs) for c in w], None,
                       kind='corpus', twice=True)
+    # the same definition registered twice against the file; lines with a
+    # carriage return in the middle / '\r\n' terminators
+    for w in [[S, B, E, S, B], [S, B, B, S]]:
+        rows = [[c] * len(defs) for c in w]
+        yield mk_case(defs, rows, None, kind='corpus', dup=True)
+        yield mk_case(defs, rows, None, kind='corpus',
+                      cr_rows={1: (1, [S] * len(defs)),
+                               2: (0, [E] * len(defs))})
+        yield mk_case(defs, rows, None, kind='corpus',
+                      cr_rows={0: (2, None), 3: (1, [E] * len(defs))})
     # end patterns that tell '' from a blank line; parts that do not store
     # their contents; definitions reused after a failed run
     defs2 = [{'letters': 0, 'shape': list(sh), 'tag': f"t{k}"}
@@ -569,6 +628,10 @@ def check_cases(chk, cases, tag):
                 chk.dist('second-run-of-same-searcher')
             if case.get('after_failure'):
                 chk.dist('definitions-reused-after-failed-run')
+            if case.get('dup'):
+                chk.dist('definition-registered-twice-on-the-file')
+            if any('\r' in t for t in case['texts']):
+                chk.dist('file-with-carriage-returns')
             if '' in case['texts']:
                 chk.dist('file-with-blank-lines')
             for dd in case['defs']:
@@ -672,7 +735,17 @@ def mp_runs(chk, njobs):
                 files[1] = [line_text([2] * nd, ll, (4, 5, 6)),
                             line_text([1] * nd, ll, (7, 8, 9)),
                             line_text([2] * nd, ll, (10, 11, 12))]
+            prior = (j % 2 == 1)
+            if j == 1:
+                # every file has a complete section for every definition
+                ll = [LETTERS[x['letters']] for x in base['defs']]
+                for fi in range(len(files)):
+                    files[fi] = [line_text([1] * nd, ll, (1, 2, 3 + fi)),
+                                 line_text([4] * nd, ll, (4, 5, 6)),
+                                 line_text([2] * nd, ll, (7, 8, 9))] + \
+                        files[fi]
             job = {'defs': base['defs'], 'files': files,
+                   'prior_single': prior,
                    'simple': base.get('simple'),
                    'simple_pos': base.get('simple_pos', 0),
                    'final_newline': base.get('final_newline', True),
@@ -683,6 +756,8 @@ def mp_runs(chk, njobs):
                               {'job': job, 'error': err}, witness=False)
                 continue
             chk.dist('two-or-more-files-multiprocess')
+            if prior:
+                chk.dist('parallel-run-after-in-process-use-of-definitions')
             for pr in out['problems']:
                 chk.violation('sequence-structure ' + pr.split('(')[0],
                               {'job': job, 'problem': pr,
@@ -721,7 +796,7 @@ def run(chk):
         "distinct = by (shape, class word)")
     n = check_cases(chk, list(corpus_cases()), 'corpus')
     n += check_cases(chk, exhaustive_cases(4 if chk.quick else 5), 'exh')
-    nrand = 2500 if chk.quick else 8000
+    nrand = 2000 if chk.quick else 8000
     n += check_cases(chk, [random_case(chk.rng) for _ in range(nrand)],
                      'rnd')
     n += mp_runs(chk, 8 if chk.quick else 30)
@@ -745,6 +820,19 @@ def replay(chk, path):
         check_cases(chk, [w['case']], 'replay')
     elif 'job' in w:
         job = w['job']
+        d = tempfile.mkdtemp(prefix='c03mp_', dir=chk.work)
+        try:
+            out, err = run_mp(job, d)
+        finally:
+            shutil.rmtree(d, ignore_errors=True)
+        if out is None:
+            chk.violation('multi-file-run-failed', {'job': job, 'error': err},
+                          witness=False)
+        else:
+            for pr in out['problems']:
+                chk.violation('sequence-structure ' + pr.split('(')[0],
+                              {'job': job, 'problem': pr,
+                               'observed': out['files']})
         for texts in job['files']:
             case = dict(job, texts=texts)
             case.pop('files')
